@@ -98,6 +98,29 @@ pub fn run(env: &Env) -> i32 {
         "valid-by-construction schema (global field dictionary, all kinds, custom directives, renamed roots) and operation document (aliases, every argument form, variables with/without defaults, spec input coercions, enum/object/list literals, custom scalars, named/inline fragments over object/interface/union in every applicable pair, built-in and custom directives at every executable location, __typename, anonymous op); confirmed valid by the reference validator; oracle: zero diagnostics from the in-process check pipeline. Non-trivial: >=3 distinct feature labels; distinct = (schema text, document text).",
     );
     rep.assume("documents are strictly spec-valid: every fragment is used, every variable is used, same response key => same field and arguments (generator discipline)");
+    let probe = |schema: &'static str, ops: &'static str| {
+        move || -> CaseResult {
+            let detail = json!({"schema": schema, "operations": ops});
+            let sfiles = vec![(PathBuf::from("/p/schema.graphql"), schema.to_string())];
+            let ofiles = vec![(PathBuf::from("/p/ops.graphql"), ops.to_string())];
+            let ss = schema_stage(&sfiles, &detail)?;
+            if !ss.ok() {
+                return Err(Failure::new("schema-rejected", format!("{:?}", ss.all_diags()), detail));
+            }
+            let os = op_stage(ss.doc.as_ref().unwrap(), 1, &ofiles, &detail)?;
+            if let Some(d) = os.all_diags().first() {
+                return Err(Failure::new(format!("false-diagnostic:{}", d.kind), d.message.clone(), detail));
+            }
+            Ok(())
+        }
+    };
+    let sch = "type Query { f(x: Float, id: ID, ids: [Int], deep: [[Int]], s: String!, d: Int! = 1): Int }";
+    rep.probe("C04-int-literal-for-float", probe(sch, "query Q { f(x: 1) }"));
+    rep.probe("C04-int-literal-for-id", probe(sch, "query Q { f(id: 1) }"));
+    rep.probe("C04-single-value-for-list", probe(sch, "query Q { f(ids: 1, deep: 2) }"));
+    rep.probe("C04-null-for-list", probe(sch, "query Q { f(ids: null, deep: [null]) }"));
+    rep.probe("C04-nullable-var-with-default", probe(sch, "query Q($v: String = \"x\", $w: Int) { f(s: $v, d: $w) }"));
+
     rep.campaign("valid-docs", env.cases(4_000, 150_000), (0, 700), case_fn);
     rep.finish()
 }
